@@ -105,6 +105,7 @@ static std::vector<uint32_t> gapSet(int level) {
   // them) also land on both sides of every boundary: needed for chains in which one reference's growth pushes another over its boundary
   if (level == 3 || level == 4) { std::vector<uint32_t> g = {0, 1, 2, 3}; for (uint32_t c : {16u, 256u}) for (int d = -8; d <= 1; d++) g.push_back(c + d); if (level == 4) for (int d = -8; d <= 1; d++) g.push_back(4096 + d); return g; }
   if (level == 5) return {0, 1, 3, 13, 14, 15, 252, 253, 254, 255};
+  if (level == 6) return {0, 1, 2, 3, 12, 13, 14, 15, 16, 250, 251, 252, 253, 254};
   // boundary-straddling filler sizes: around 16, 256, 4096, 65536 in both directions (the reference itself adds 1..5 bytes)
   if (level == 0) return {0, 1, 3, 14, 15, 16, 254, 255};
   if (level == 1) return {0, 1, 2, 3, 13, 14, 15, 16, 17, 253, 254, 255, 256, 257, 4093, 4094, 4095, 4096, 4097};
@@ -140,7 +141,11 @@ int main(int argc, char **argv) {
   struct Fam { std::string name; int maxLen, maxLabels, gapLevel; bool proc, text; };
   std::vector<Fam> fams;
   if (!ctx.thorough()) {
+#ifdef HEXMC_C17
+    fams = {{"len3-gaps19", 3, 2, 1, true, false}, {"len4-gaps14", 4, 3, 6, false, false}, {"len3-gaps8-text", 3, 2, 0, true, true}};   // listing generation is ~20x the cost of assembly
+#else
     fams = {{"len3-gaps19", 3, 2, 1, true, false}, {"len4-gaps24", 4, 3, 3, false, false}, {"len3-gaps8-text", 3, 2, 0, true, true}};
+#endif
   } else {
     fams = {{"len3-gaps36", 3, 2, 2, true, false}, {"len4-gaps34", 4, 3, 4, false, false}, {"len3-gaps19-text", 3, 2, 1, true, true}, {"len5-gaps10", 5, 3, 5, false, false}};
   }
